@@ -7,11 +7,12 @@ func (Engine) Describe(prop string) core.Description {
 		"ech.Dialer[T].Dial / dialOne":                "real code under test (worker pool, feeder, collector, retry)",
 		"ech.Resolver.Resolve, ResolveResult.Targets": "real code (IP literals and localhost resolve without DNS; C17 zones go through the real resolver, cache, retryablehttp and dns codec)",
 		"context, timers, time.After":                 "real, on the virtual clock of testing/synctest (one bubble per run)",
-		"DialFunc":                                    "stub: scripted outcome and latency per target; records arguments, context state and instants",
-		"connections":                                 "stub: *simConn implementing io.Closer; Close is logged",
-		"DoH upstream (C17 only)":                     "stub: in-process http.RoundTripper installed through the verif-tagged hook dns.VerifRoundTripper; zero latency",
-		"crypto randomness":                           "pinned per plan (testing/cryptotest) -- only the PublicName bootstrap config draws from it",
-		"goroutine scheduling inside an instant":      "Go runtime (not controlled; see assumptions)",
+		"ech.Transport.RoundTrip (C17, 1 plan in 8)":  "real code, with the real net/http.Transport calling DialTLSContext",
+		"DialFunc":                               "stub: scripted outcome and latency per target; records arguments, context state and instants",
+		"connections":                            "stub: *simConn implementing io.Closer; Close is logged",
+		"DoH upstream (C17 only)":                "stub: in-process http.RoundTripper installed through the verif-tagged hook dns.VerifRoundTripper; zero latency",
+		"crypto randomness":                      "pinned per plan (testing/cryptotest) -- only the PublicName bootstrap config draws from it",
+		"goroutine scheduling inside an instant": "Go runtime (not controlled; see assumptions)",
 	}}
 	switch prop {
 	case "C18":
@@ -31,12 +32,12 @@ func (Engine) Describe(prop string) core.Description {
 		d.Assumptions = []string{
 			"The simulated DoH upstream encodes its answers with the repository's own dns.Message.Bytes: C17 is about Dial, not about the codec (C12-C14 use an independent codec).",
 			"Zones are generated so that every address belongs to exactly one host of the address list and to at most one HTTPS record, which makes 'the record that produced the address' unambiguous; the oracle derives that ownership from the zone with its own small model (alias chains of length <= 2, CNAMEs inside an answer, targets, hints) and does not predict the target order.",
-			"Resolution results injected by ech.Transport through the context are not reachable from outside the package and are covered by C19, not here.",
+			"One plan in eight reaches Dial the way an http.Client does: through ech.Transport.RoundTrip (real Transport, real net/http.Transport dial path, Transport.TLSConfig = the caller's config, Transport.Dialer carrying the plan's options and the scripted DialFunc). No attempt of such a plan succeeds (the scripted DialFunc has no *tls.Conn to hand to net/http), and the zone's records are all usable for h2/http1.1 so that Transport's protocol filter (C19's business) removes only AliasMode records. The stock DialFunc of NewDialer (crypto/tls over real sockets) is outside the simulator.",
 			"An ECH rejection that comes back after Dial has already returned may or may not be retried (the retry would run under a cancelled context); before that point exactly one retry is required.",
 			"A failure that takes no virtual time (a RequireECH refusal, a resolver error for one host) reaches Dial's collector in the same instant in which the feeder goes back to waiting; whether it shortens the stagger delay is decided by the runtime. Such runs are marked runtime_arbitrated (their verdicts do not depend on it; only their instants do).",
 			"Caller's tls.Config immutability is checked on the fields the harness sets (ServerName, EncryptedClientHelloConfigList, NextProtos, MinVersion, InsecureSkipVerify) and on pointer identity.",
 		}
-		d.RequiredProbes = []string{"retry_with_configs", "require_ech_refusal", "bootstrap_used", "dns_ech_used", "caller_ech_kept", "caller_sn_kept", "alias_followed", "retry_rejected_again", "reject_without_retry_configs", "partial_ech_host_dialled", "cname_in_answer"}
+		d.RequiredProbes = []string{"retry_with_configs", "require_ech_refusal", "bootstrap_used", "dns_ech_used", "caller_ech_kept", "caller_sn_kept", "alias_followed", "retry_rejected_again", "reject_without_retry_configs", "partial_ech_host_dialled", "cname_in_answer", "via_transport"}
 	}
 	return d
 }
